@@ -2,6 +2,7 @@ import Driver.Common
 import JaqVerif.C16.Load
 import JaqVerif.C16.Search
 import JaqVerif.C16.Inline
+import JaqVerif.C16.Lexical
 
 /-!
 Driver for C16.  Requests (tokens separated by blanks, see `harness/src/props/c16.rs`):
@@ -193,7 +194,7 @@ def loadReq (r : Req) : String ⊕ Loaded :=
     .inl (showTrace st.trace ++ " ## LOADERR " ++ ";".intercalate (errs.map fun (p, e) => p ++ ":" ++ showModErr e))
   | some (st, .ok deps main) =>
     let fv := fileVars deps main
-    let g : Graph S := { mods := (deps ++ [main]).map (·.2), globals := r.globals }
+    let g : Graph S := graphOf deps main r.globals
     let vv : VarVals := {
       imported := fv.map fun (_, p, s, _) => V.tag ("D:" ++ p ++ ":" ++ s),
       globals := r.globals.zipIdx.map fun (x, i) => V.tag ("G:" ++ x ++ ":" ++ toString i) }
@@ -245,12 +246,16 @@ def inlineReq (r : Req) : String :=
       let dataOf : Nat → List (String × Tm) := fun i =>
         (fv.filter fun e => e.1 = i).map fun (_, p, s, x) => (x, Tm.tag ("D:" ++ p ++ ":" ++ s))
       let t := inline l.graph dataOf
-      -- the inlined program is one module without directives: evaluate it with the same evaluator
+      -- the inlined text is one program without directives: evaluated (a) by the modular evaluator on
+      -- a graph with a single module, (b) by the lexical evaluator `evalL` (`runSingle`);
+      -- (c) `runLexical`: the closure form of the inlined program that the theorem is about
       let g1 : Graph S := { mods := [⟨[], [], ⟨[], none⟩⟩, ⟨[(0, none)], [], ⟨[], some t⟩⟩], globals := r.globals }
-      let out := match (if (compileErrors g1).isEmpty then runGraph g1 { imported := [], globals := l.vv.globals } else .error "comperr") with
+      let showR (x : Except String V) : String := match x with
         | .ok v => "OUT " ++ v.json
         | .error e => "EVALERR " ++ e
-      "PROG " ++ showTm t ++ " ## " ++ out
+      let out := showR (if (compileErrors g1).isEmpty then runGraph g1 { imported := [], globals := l.vv.globals } else .error "comperr")
+      "PROG " ++ showTm t ++ " ## " ++ out ++ " ## " ++ showR (runSingle r.globals l.vv.globals t) ++ " ## " ++
+        showR (runLexical l.graph l.vv)
 
 /-! search -/
 
